@@ -68,6 +68,7 @@ class MapGen:
         self.enums = enum_ids()
         self.act = {r["id"]: r for r in spec["actions"]}
         self.cond = {r["id"]: r for r in spec["conditions"]}
+        self.dup_ids = True
 
     def reachable_weapons(self):
         from richchk.model.richchk.unis.unit_id import UnitId
@@ -93,6 +94,14 @@ class MapGen:
             if texts and rng.random() < 0.5:
                 stored.append(rng.choice(texts))
             rng.shuffle(ids) if rng.random() < 0.3 else None
+        elif self.dup_ids and texts and rng.random() < 0.6:
+            # editor form allows several ids (and several stored copies) for one text, interleaved with
+            # other ids; references use the LAST id of their text (the form's definition)
+            for _ in range(rng.randrange(1, 4)):
+                t = rng.choice(texts)
+                ids.insert(rng.randrange(0, len(ids) + 1), t)
+                if rng.random() < 0.6:
+                    stored.insert(rng.randrange(0, len(stored) + 1), t)
         n = len(ids)
         base = 2 + 2 * n
         starts, pos = {}, base
@@ -105,7 +114,7 @@ class MapGen:
         offs = []
         for t in ids:
             c = copies[t]
-            offs.append(c[-1] if form == "editor" else rng.choice(c))
+            offs.append(rng.choice(c))
         payload = struct.pack("<H", n) + b"".join(struct.pack("<H", o) for o in offs) + data
         by_text = {}
         for i, t in enumerate(ids):
@@ -151,6 +160,15 @@ class MapGen:
                         "_hitpoints_percentage": rng.randrange(1, 101) + (slot if nprefill else 0) % 3, "_shieldpoints_percentage": rng.randrange(0, 101), "_energypoints_percentage": rng.randrange(0, 101),
                         "_resource_amount": rng.randrange(0, 50000) + slot * 100000, "_units_in_hangar": rng.randrange(0, 9),
                         "_flags": rng.randrange(0, 32) if form == "editor" else rng.choice([0, 31, rng.randrange(0, 65536)]), "_padding": 0 if form == "editor" else rng.choice([0, 0, 77])}
+        if cu and not nprefill and rng.random() < 0.5:
+            # a second slot that differs from an existing one ONLY in the validity words: the game treats
+            # them differently ("HP is valid" off = full HP), so references must not collapse onto one
+            src = rng.choice(sorted(cu))
+            free = [i for i in range(1, 65) if i not in cu]
+            twin = dict(cu[src])
+            if rng.random() < 0.7:  # else: an exact duplicate; references must stay on the slot they name
+                twin[rng.choice(["_valid_special_properties_flags", "_valid_unit_properties_flags"])] ^= rng.choice([1, 2, 4, 8, 16])
+            cu[rng.choice(free)] = twin
         zero_cu = {k: 0 for k, _ in L[b"UPRP"]["fields"]}
         uprp = refchk.build(L[b"UPRP"], {"records": [cu.get(i + 1, zero_cu) for i in range(64)]})
         if variant == "uprp-prefilled":
@@ -201,7 +219,15 @@ class MapGen:
         for _ in range(rng.randrange(0, 4)):
             nm = rng.choice([b"MTXM", b"DIM ", b"ERA ", b"SIDE", b"XYZ!", b"\xc3\xa9AB", b"\xff\xfe\x00\x01", b"STRx", b"TYPE"])
             if nm == b"STRx":
-                p = struct.pack("<I", 1) + struct.pack("<I", 8) + b"x\x00"
+                # recognised, no rich model: any table, including trailing empty strings and shared offsets
+                strs = [rng.choice([b"", b"x", b"hello", b"a b~"]) for _ in range(rng.randrange(0, 5))] + [b""] * rng.choice([0, 0, 1, 3])
+                nid = rng.randrange(0, 6)
+                base = 4 + 4 * nid
+                starts, pos = [], base
+                for t in strs:
+                    starts.append(pos)
+                    pos += len(t) + 1
+                p = struct.pack("<I", nid) + b"".join(struct.pack("<I", rng.choice(starts) if starts else base) for _ in range(nid)) + b"".join(t + b"\x00" for t in strs)
             else:
                 p = bytes(rng.randrange(256) for _ in range(rng.choice([0, 2, 17, 40])))
             chunks.insert(rng.randrange(0, len(chunks) + 1), (nm, p))
@@ -241,6 +267,9 @@ class MapGen:
         rec = {f: 0 for f in fields}
         if r < 0.7:
             tid = rng.choice(sorted(table))
+            if kind == "a" and cu and rng.random() < 0.15:
+                # bias towards the action(s) that reference a unit-property slot
+                tid = rng.choice([t for t in sorted(table) if "RichCuwpSlot" in self.kinds.get(("a", t), {}).values()] or [tid])
             rec[typefield] = tid
             kinds = self.kinds.get((kind, tid), {})
             for arg, f in table[tid]["args"]:
